@@ -22,6 +22,7 @@ Seeds == { <<60,97,62,60,47,32,62,60,47,9,13,10,62,60,32,62,60,47,32,62>>,   \* 
            <<60,33,45,45,97,45,98,45,99,45,100,45,101,45,45,102,45,45,62,120>>,       \* <!--a-b-c-d-e--f-->x   (single hyphens before the double one)
            <<60,33,91,67,68,65,84,65,91,93,93,93,93,62>>,          \* <![CDATA[]]]]>
            <<60,97,32,98,61,39,34,62,39,62>>,                      \* <a b='">'>
+           <<60,97,32,107,61,39,49,39,32,107,61,62,60,97,32,107,61,34,49,34,32,107,32,61,47,62>>,      \* <a k='1' k=><a k="1" k =/>   (a repeated key whose '=' is the last byte of the tag)
            <<60,63,63,62>>, <<60,63,62,120>>,                      \* <??>  <?>x
            <<60,33,68,79,67,84,89,80,69,32,97,32,91,60,33,69,32,120,32,34,62,34,62,93,62>>,
            <<60,33,100,111,99,116,121,112,101,62>>,                \* <!doctype>
